@@ -17,8 +17,7 @@ open Nri.Api Nri.Result
 /-- the items of a `LinuxResources` message a plugin sets -/
 def resItems (r : Resources) : List Item := resSets r
 
-def markedKeys (keys : List Str) : List Str :=
-  keys.filterMap fun k => let (key, m) := isMarked k; if m then some key else none
+abbrev markedKeys (keys : List Str) : List Str := delKeys keys
 
 /-- items a creation adjustment sets on the container being created: the unmarked keys of
     annotations, mounts, environment, devices; the command line; every resource field given;
